@@ -15,7 +15,7 @@ import (
 
 func TestVerif_C04(t *testing.T) {
 	rep := verifkit.NewReport("C04")
-	rep.Rule = "each case: a synced node; a block of n transactions (n in 1..40 and 63..66, so every odd row count occurs) with a generated set of relevant positions (single position, pair, random subset), each relevant tx new or already delivered unconfirmed, sent as MsgBlock or MsgParseBlock; valid cases are judged by the harness' own merkle-path verifier against the header the node holds; corrupt cases (drop i, duplicate i, insert foreign tx at i, swap i/j, alter tx i, under the unchanged header; bodies whose independently computed root still equals the header root are skipped) must leave height and callbacks unchanged. Non-trivial = every case; distinct by (n, relevant positions class, new/seen pattern, corruption)"
+	rep.Rule = "each case: a synced node; a block of n transactions (n in 1..40 and 63..66, so every odd row count occurs) with a generated set of relevant positions (single position, pair, random subset), each relevant tx new, already delivered unconfirmed, or delivered and then flagged unsafe by a double spend, sent as MsgBlock or MsgParseBlock; valid cases are judged by the harness' own merkle-path verifier against the header the node holds; corrupt cases (drop i, duplicate i, insert foreign tx at i, swap i/j, alter tx i, under the unchanged header; bodies whose independently computed root still equals the header root are skipped) must leave height and callbacks unchanged. Non-trivial = every case; distinct by (n, relevant positions class, new/seen pattern, corruption)"
 	rep.Assumptions = []string{"independent verifier verifkit.VerifyMerklePath / MerkleRoot (double SHA-256, odd rows duplicate the last node)", "blocks need no proof of work"}
 	defer rep.Write()
 	sizes := []int{}
@@ -29,182 +29,192 @@ func TestVerif_C04(t *testing.T) {
 		if !verifkit.Mine(ci) {
 			continue
 		}
-		r := verifkit.Rand("C04", ci)
-		w, err := newTxWorld(r, verifkit.NewStore(false), 3, 1+r.Intn(3))
-		if err != nil {
-			rep.Inconc(ci, err.Error())
-			continue
-		}
-		size := sizes[ci%len(sizes)]
-		corruption := corruptions[r.Intn(len(corruptions))]
-		parse := r.Intn(2) == 0
-		// relevant positions among 1..size-1 (0 is the coinbase)
-		rel := map[int]bool{}
-		if size > 1 {
-			switch r.Intn(4) {
-			case 0:
-				rel[1+r.Intn(size-1)] = true
-			case 1:
-				rel[1+r.Intn(size-1)] = true
-				rel[1+r.Intn(size-1)] = true
-			case 2:
-				rel[size-1] = true // the last position (duplicated node on odd rows)
-			default:
-				for p := 1; p < size; p++ {
-					if r.Intn(4) == 0 {
-						rel[p] = true
-					}
-				}
+		ci := ci
+		verifkit.RunCase(rep, ci, func() {
+			r := verifkit.Rand("C04", ci)
+			w, err := newTxWorld(r, verifkit.NewStore(false), 3, 1+r.Intn(3))
+			if err != nil {
+				rep.Inconc(ci, err.Error())
+				return
 			}
-		}
-		var txs []*txInfo
-		seenPattern := ""
-		for p := 1; p < size; p++ {
-			kind := "none"
-			if rel[p] {
-				kind = []string{"out-push", "in-push", "hashed-out"}[r.Intn(3)]
-			}
-			var h bitcoin.Hash32
-			r.Read(h[:])
-			op := wire.OutPoint{Hash: h, Index: 0}
-			w.uni.Outs[op] = wire.NewTxOut(uint64(1000+p), verifkit.P2PKH(randB(r, 20)))
-			ti := w.makeTx(kind, []wire.OutPoint{op})
-			txs = append(txs, ti)
-			if rel[p] && r.Intn(2) == 0 && corruption == "" {
-				w.arrive(ti, "trusted-bare", true)
-				seenPattern += "s"
-			} else if rel[p] {
-				seenPattern += "n"
-			}
-		}
-		shape := fmt.Sprintf("n=%d/rel=%d/%s/parse=%v/%s", size, len(rel), seenPattern, parse, corruption)
-		if corruption == "" {
-			snap := w.e.store.Clone()
-			w.mine(txs, parse)
-			if r.Intn(6) == 0 && len(rel) >= 1 {
-				// crash image of an initial sync: the per-height tx records of the block reached
-				// storage, the header file did not; a new node processes the block again
-				shape += "/reprocessed-after-crash"
-				crash := w.e.store.Clone()
-				for _, k := range crash.Keys() {
-					if len(k) > 15 && k[:15] == "spynode/blocks/" {
-						if b, ok := snap.Get(k); ok {
-							crash.Put(k, b)
+			size := sizes[ci%len(sizes)]
+			corruption := corruptions[r.Intn(len(corruptions))]
+			parse := r.Intn(2) == 0
+			// relevant positions among 1..size-1 (0 is the coinbase)
+			rel := map[int]bool{}
+			if size > 1 {
+				switch r.Intn(4) {
+				case 0:
+					rel[1+r.Intn(size-1)] = true
+				case 1:
+					rel[1+r.Intn(size-1)] = true
+					rel[1+r.Intn(size-1)] = true
+				case 2:
+					rel[size-1] = true // the last position (duplicated node on odd rows)
+				default:
+					for p := 1; p < size; p++ {
+						if r.Intn(4) == 0 {
+							rel[p] = true
 						}
 					}
 				}
-				w.judgeFrom = len(w.e.log.snapshot())
-				if err := w.boot(crash); err != nil {
-					rep.Inconc(ci, "reboot on crash image: "+err.Error())
-					continue
-				}
-				rep.Event("blocks_reprocessed_after_crash", 1)
 			}
-			w.checkC04(2)
-			w.checkC03(2)
-			// a seen tx must be confirmed by an update, a new one by HandleTx: exactly one each
-			evs := w.e.log.snapshot()
-			for _, ti := range txs {
-				if !ti.relevant || w.judgeFrom > 0 {
-					continue
+			var txs []*txInfo
+			seenPattern := ""
+			for p := 1; p < size; p++ {
+				kind := "none"
+				if rel[p] {
+					kind = []string{"out-push", "in-push", "hashed-out"}[r.Intn(3)]
 				}
-				nProof := 0
-				for _, ev := range evs {
-					if ev.Handler == 0 && ev.TxID == ti.id && ev.State.MerkleProof != nil {
-						nProof++
-						wantKind := "tx"
-						if ti.processedUnconf > 0 {
-							wantKind = "update"
-						}
-						if ev.Kind != wantKind {
-							w.find("C04", "C04/confirmation-wrong-notification-kind", fmt.Sprintf("%s (seen before=%v) confirmed through a %s notification", ti.name, ti.processedUnconf > 0, ev.Kind))
+				var h bitcoin.Hash32
+				r.Read(h[:])
+				op := wire.OutPoint{Hash: h, Index: 0}
+				w.uni.Outs[op] = wire.NewTxOut(uint64(1000+p), verifkit.P2PKH(randB(r, 20)))
+				ti := w.makeTx(kind, []wire.OutPoint{op})
+				txs = append(txs, ti)
+				if rel[p] && r.Intn(2) == 0 && corruption == "" {
+					w.arrive(ti, "trusted-bare", true)
+					seenPattern += "s"
+					if r.Intn(3) == 0 {
+						// a double spend of it is seen before the block: it is confirmed from the
+						// unsafe state
+						ds := w.makeTx([]string{"none", "out-push"}[r.Intn(2)], []wire.OutPoint{op})
+						w.arrive(ds, []string{"untrusted-bare", "trusted-bare"}[r.Intn(2)], true)
+						seenPattern += "u"
+					}
+				} else if rel[p] {
+					seenPattern += "n"
+				}
+			}
+			shape := fmt.Sprintf("n=%d/rel=%d/%s/parse=%v/%s", size, len(rel), seenPattern, parse, corruption)
+			if corruption == "" {
+				snap := w.e.store.Clone()
+				w.mine(txs, parse)
+				if r.Intn(6) == 0 && len(rel) >= 1 {
+					// crash image of an initial sync: the per-height tx records of the block reached
+					// storage, the header file did not; a new node processes the block again
+					shape += "/reprocessed-after-crash"
+					crash := w.e.store.Clone()
+					for _, k := range crash.Keys() {
+						if len(k) > 15 && k[:15] == "spynode/blocks/" {
+							if b, ok := snap.Get(k); ok {
+								crash.Put(k, b)
+							}
 						}
 					}
+					w.judgeFrom = len(w.e.log.snapshot())
+					if err := w.boot(crash); err != nil {
+						rep.Inconc(ci, "reboot on crash image: "+err.Error())
+						return
+					}
+					rep.Event("blocks_reprocessed_after_crash", 1)
 				}
-				if nProof != 1 {
-					w.find("C04", "C04/confirmation-count", fmt.Sprintf("%s got %d notifications with a proof for one confirmation", ti.name, nProof))
+				w.checkC04(2)
+				w.checkC03(2)
+				// a seen tx must be confirmed by an update, a new one by HandleTx: exactly one each
+				evs := w.e.log.snapshot()
+				for _, ti := range txs {
+					if !ti.relevant || w.judgeFrom > 0 {
+						continue
+					}
+					nProof := 0
+					for _, ev := range evs {
+						if ev.Handler == 0 && ev.TxID == ti.id && ev.State.MerkleProof != nil {
+							nProof++
+							wantKind := "tx"
+							if ti.processedUnconf > 0 {
+								wantKind = "update"
+							}
+							if ev.Kind != wantKind {
+								w.find("C04", "C04/confirmation-wrong-notification-kind", fmt.Sprintf("%s (seen before=%v) confirmed through a %s notification", ti.name, ti.processedUnconf > 0, ev.Kind))
+							}
+						}
+					}
+					if nProof != 1 {
+						w.find("C04", "C04/confirmation-count", fmt.Sprintf("%s got %d notifications with a proof for one confirmation", ti.name, nProof))
+					}
 				}
-			}
-			rep.Event("valid_blocks", 1)
-		} else {
-			var ms []*wire.MsgTx
-			for _, t := range txs {
-				ms = append(ms, t.tx)
-			}
-			b := w.tree.Extend(w.tip, ms)
-			body := append([]*wire.MsgTx(nil), b.Txs...)
-			i, j := r.Intn(len(body)), r.Intn(len(body))
-			switch corruption {
-			case "drop":
-				body = append(append([]*wire.MsgTx(nil), body[:i]...), body[i+1:]...)
-			case "duplicate":
-				body = append(append(append([]*wire.MsgTx(nil), body[:i+1]...), body[i]), body[i+1:]...)
-			case "insert":
-				body = append(append(append([]*wire.MsgTx(nil), body[:i]...), verifkit.Coinbase(4242, uint32(ci))), body[i:]...)
-			case "swap":
-				body[i], body[j] = body[j], body[i]
-			case "alter":
-				c := body[i].Copy()
-				c.LockTime ^= 1
-				body[i] = &c
-			}
-			if len(body) == 0 {
-				rep.Event("corrupt_skipped_empty", 1)
-				continue
-			}
-			ids := make([]bitcoin.Hash32, len(body))
-			for k, tx := range body {
-				ids[k] = *tx.TxHash()
-			}
-			if verifkit.MerkleRoot(ids) == b.Header.MerkleRoot {
-				rep.Event("corrupt_skipped_root_unchanged", 1)
-				continue
-			}
-			heightBefore := w.e.node.blocks.LastHeight()
-			mark := len(w.e.log.snapshot())
-			direct := r.Intn(2) == 0
-			if direct {
-				corruption += "-direct"
-			}
-			w.guard("corrupt block", func() {
-				resp := w.e.handle(headersMsg(b))
-				if len(invHashes(resp, wire.InvTypeBlock)) != 1 {
-					w.find("C04", "C04/harness-block-not-requested", "announced block was not requested")
+				rep.Event("valid_blocks", 1)
+			} else {
+				var ms []*wire.MsgTx
+				for _, t := range txs {
+					ms = append(ms, t.tx)
+				}
+				b := w.tree.Extend(w.tip, ms)
+				body := append([]*wire.MsgTx(nil), b.Txs...)
+				i, j := r.Intn(len(body)), r.Intn(len(body))
+				switch corruption {
+				case "drop":
+					body = append(append([]*wire.MsgTx(nil), body[:i]...), body[i+1:]...)
+				case "duplicate":
+					body = append(append(append([]*wire.MsgTx(nil), body[:i+1]...), body[i]), body[i+1:]...)
+				case "insert":
+					body = append(append(append([]*wire.MsgTx(nil), body[:i]...), verifkit.Coinbase(4242, uint32(ci))), body[i:]...)
+				case "swap":
+					body[i], body[j] = body[j], body[i]
+				case "alter":
+					c := body[i].Copy()
+					c.LockTime ^= 1
+					body[i] = &c
+				}
+				if len(body) == 0 {
+					rep.Event("corrupt_skipped_empty", 1)
 					return
 				}
+				ids := make([]bitcoin.Hash32, len(body))
+				for k, tx := range body {
+					ids[k] = *tx.TxHash()
+				}
+				if verifkit.MerkleRoot(ids) == b.Header.MerkleRoot {
+					rep.Event("corrupt_skipped_root_unchanged", 1)
+					return
+				}
+				heightBefore := w.e.node.blocks.LastHeight()
+				mark := len(w.e.log.snapshot())
+				direct := r.Intn(2) == 0
 				if direct {
-					// hand the body straight to the block processor (exported entry point)
-					w.e.node.ProcessBlock(w.e.ctx, blockMsg(b.MsgWithTxs(body), parse).(wire.Block))
-				} else {
-					w.e.handle(blockMsg(b.MsgWithTxs(body), parse))
-					for w.e.step() {
+					corruption += "-direct"
+				}
+				w.guard("corrupt block", func() {
+					resp := w.e.handle(headersMsg(b))
+					if len(invHashes(resp, wire.InvTypeBlock)) != 1 {
+						w.find("C04", "C04/harness-block-not-requested", "announced block was not requested")
+						return
+					}
+					if direct {
+						// hand the body straight to the block processor (exported entry point)
+						w.e.node.ProcessBlock(w.e.ctx, blockMsg(b.MsgWithTxs(body), parse).(wire.Block))
+					} else {
+						w.e.handle(blockMsg(b.MsgWithTxs(body), parse))
+						for w.e.step() {
+						}
+					}
+					w.e.procErr = nil
+				})
+				if h := w.e.node.blocks.LastHeight(); h != heightBefore {
+					w.find("C04", "C04/bad-merkle-block-accepted/"+corruption, fmt.Sprintf("height went from %d to %d with a body whose merkle root differs from the header (%s at %d of %d txs)", heightBefore, h, corruption, i, len(b.Txs)))
+				}
+				for _, ev := range w.e.log.snapshot()[mark:] {
+					if ev.Kind == "headers" || ev.Kind == "tx" || ev.Kind == "update" {
+						w.find("C04", "C04/bad-merkle-block-callbacks/"+corruption+"/"+ev.Kind, fmt.Sprintf("a %s callback was caused by a block whose body does not hash to its header's merkle root (%s at %d of %d txs)", ev.Kind, corruption, i, len(b.Txs)))
+						break
 					}
 				}
-				w.e.procErr = nil
-			})
-			if h := w.e.node.blocks.LastHeight(); h != heightBefore {
-				w.find("C04", "C04/bad-merkle-block-accepted/"+corruption, fmt.Sprintf("height went from %d to %d with a body whose merkle root differs from the header (%s at %d of %d txs)", heightBefore, h, corruption, i, len(b.Txs)))
+				rep.Event("corrupt_blocks:"+corruption, 1)
 			}
-			for _, ev := range w.e.log.snapshot()[mark:] {
-				if ev.Kind == "headers" || ev.Kind == "tx" || ev.Kind == "update" {
-					w.find("C04", "C04/bad-merkle-block-callbacks/"+corruption+"/"+ev.Kind, fmt.Sprintf("a %s callback was caused by a block whose body does not hash to its header's merkle root (%s at %d of %d txs)", ev.Kind, corruption, i, len(b.Txs)))
-					break
+			for _, f := range w.finds {
+				if f.prop != "C04" {
+					rep.Event("other_property_findings:"+f.sig, 1)
+					continue
 				}
+				wit := w.witness()
+				wit["shape"] = shape
+				rep.Finding(ci, f.sig, f.detail+" | "+shape, wit)
 			}
-			rep.Event("corrupt_blocks:"+corruption, 1)
-		}
-		for _, f := range w.finds {
-			if f.prop != "C04" {
-				rep.Event("other_property_findings:"+f.sig, 1)
-				continue
+			rep.Case(shape, true)
+			if rep.WantSample() && corruption != "" {
+				rep.Sample(map[string]interface{}{"shape": shape, "callbacks": w.e.log.strings(0)})
 			}
-			wit := w.witness()
-			wit["shape"] = shape
-			rep.Finding(ci, f.sig, f.detail+" | "+shape, wit)
-		}
-		rep.Case(shape, true)
-		if rep.WantSample() && corruption != "" {
-			rep.Sample(map[string]interface{}{"shape": shape, "callbacks": w.e.log.strings(0)})
-		}
+		})
 	}
 }
